@@ -411,7 +411,7 @@ def _alignment(ctx, R0, cfg, g, target, opt, massTau, Taus):
             ctx.probes["rows_outside_optical_altitude_range"] += 1
 
 
-REAL = (("threads", 2), ("threads", 8), ("processes", 3), ("threads", 1))
+REAL = (("threads", 2), ("threads", 8), ("processes", 3), ("threads", 1), ("distributed", 4))
 
 
 def scn_real(ctx):
@@ -426,6 +426,8 @@ def scn_real(ctx):
     s = desc["rng_seed"]
     T0 = float(ch.draw(4 * 365 * 86400, "clock"))
     name, nw = REAL[ctx.idx % len(REAL)]  # round-robin over run indices (the index is in the replay file)
+    if name == "distributed" and desc["mode"] == "Diffuse":
+        cfg.simulation.thrown_events = desc["thrown_events"] = 180 + ch.draw(120, "events_distributed")  # several partitions
     ctx.describe.update(config=desc, clock=T0, real_scheduler=name, workers=nw)
     ctx.log(f"real config {desc} clock={T0:.0f} scheduler={name} x{nw}")
     ctx.probes[f"real_{name}"] += 1
@@ -447,6 +449,19 @@ def scn_real(ctx):
         saved_hs = os.environ.get("PYTHONHASHSEED")
         os.environ["PYTHONHASHSEED"] = child_hash  # spawned workers: their own string-hash seed
         try:
+            if name == "distributed":
+                # an in-process dask.distributed cluster (1 worker, nw threads) becomes the default scheduler
+                from dask.distributed import Client
+
+                client = Client(processes=False, n_workers=1, threads_per_worker=nw, dashboard_address=None)
+                try:
+                    with seams.simulated_clock(lambda: T0):
+                        try:
+                            return _diff(c0, canon(compute(cfg)))
+                        except Exception as e:  # noqa: BLE001
+                            return f"raised {type(e).__name__}: {str(e)[:200]}"
+                finally:
+                    client.close()
             with seams.simulated_clock(lambda: T0), dask.config.set(scheduler=name, num_workers=nw, **{"multiprocessing.initializer": env.child_init}):
                 try:
                     return _diff(c0, canon(compute(cfg)))
@@ -515,7 +530,7 @@ def _optical_rows(ctx, R0, cfg, col):
 
 FAMILIES = {"full": scn_full, "real": scn_real}
 OBSERVATIONAL = ("real",)
-PLAN = {"quick": [("full", 1200, 4), ("real", 12, 1)], "thorough": [("full", 40000, 10), ("real", 300, 2)]}
+PLAN = {"quick": [("full", 1200, 4), ("real", 15, 1)], "thorough": [("full", 40000, 10), ("real", 300, 2)]}
 BUDGET = {"quick": 200, "thorough": 2400}
 
 META = {
